@@ -1328,6 +1328,8 @@ pub fn get_random_module(&self, source: &mut GenerationSource) -> (r: Result<VfT
 //@rewrite R14 process_stack_ops self.process_stack_ops($ARGS, Ghost(r), Ghost(RefArg { idx: index as int }))
 //@prelude
         let ghost mut gidx: int = 0;
+        let ghost mut gk: usize = 0;
+        let ghost mut gs: GenerationSource = *source;
 //@before 1 if !keys.is_empty()
                 proof {
                     assert(keys@.len() > 0);
@@ -1337,7 +1339,15 @@ pub fn get_random_module(&self, source: &mut GenerationSource) -> (r: Result<VfT
                     assert(keys@ =~= canon(self.state.memo@.dom())); // @C07?
                 }
 //@after 1 let index = keys[
-                    proof { assert(keys@.contains(index)); }
+                    proof { assert(keys@.contains(index)); gk = index; gs = *source; }
+//@before 1 self.output.push(
+                    proof {
+                        // C15 at the call site: the memo index that gets written went through the dispatcher - it is the dispatcher's
+                        // answer for the picked key, or (safe mode only) the picked key because that answer is no defined index
+                        let fm = Generator::first_memo(&self.mutators, 0, gk, gs, self.mutation_rate).0;
+                        assert(index == fm || (!self.unsafe_mutations && index == gk && !self.state.memo@.dom().contains(fm))
+                            || (vf_rate_zero(self.mutation_rate) && index == gk)); // @C15
+                    }
 //@before 1 self.process_stack_ops(
                     proof { gidx = index as int; }
 //@after 1 self.output.extend_from_slice(arg_bytes);
@@ -1359,6 +1369,8 @@ pub fn get_random_module(&self, source: &mut GenerationSource) -> (r: Result<VfT
 //@rewrite R14 process_stack_ops self.process_stack_ops($ARGS, Ghost(r), Ghost(RefArg { idx: index as int }))
 //@prelude
         let ghost mut gidx: int = 0;
+        let ghost mut gk: usize = 0;
+        let ghost mut gs: GenerationSource = *source;
 //@before 1 vf_sort_unstable(&mut valid_indices)
                 proof { assert(r.memo.dom().contains(0)); assert(self.state.memo@.dom().contains(0usize)); assert(valid_indices@.contains(0usize)); }
 //@before 1 if !valid_indices.is_empty()
@@ -1370,7 +1382,15 @@ pub fn get_random_module(&self, source: &mut GenerationSource) -> (r: Result<VfT
                     assert(valid_indices@ =~= canon(small)); // @C07?
                 }
 //@after 1 let index = valid_indices[
-                    proof { assert(valid_indices@.contains(index)); }
+                    proof { assert(valid_indices@.contains(index)); gk = index; gs = *source; }
+//@before 1 self.output.push(
+                    proof {
+                        // C15 at the call site (the dispatcher's answer is clamped to the one-byte argument of BINGET)
+                        let fm0 = Generator::first_memo(&self.mutators, 0, gk, gs, self.mutation_rate).0;
+                        let fm = if fm0 < 255 { fm0 } else { 255usize };
+                        assert(index == fm || (!self.unsafe_mutations && index == gk && !(fm < 256 && self.state.memo@.dom().contains(fm)))
+                            || (vf_rate_zero(self.mutation_rate) && index == gk)); // @C15
+                    }
 //@before 1 self.process_stack_ops(
                     proof { gidx = index as int; }
 //@before 1 Ok(())
@@ -1388,6 +1408,8 @@ pub fn get_random_module(&self, source: &mut GenerationSource) -> (r: Result<VfT
 //@rewrite R14 process_stack_ops self.process_stack_ops($ARGS, Ghost(r), Ghost(RefArg { idx: index as int }))
 //@prelude
         let ghost mut gidx: int = 0;
+        let ghost mut gk: usize = 0;
+        let ghost mut gs: GenerationSource = *source;
 //@before 1 if !keys.is_empty()
                 proof {
                     assert(keys@.len() > 0);
@@ -1397,7 +1419,15 @@ pub fn get_random_module(&self, source: &mut GenerationSource) -> (r: Result<VfT
                     assert(keys@ =~= canon(self.state.memo@.dom())); // @C07?
                 }
 //@after 1 let index = keys[
-                    proof { assert(keys@.contains(index)); }
+                    proof { assert(keys@.contains(index)); gk = index; gs = *source; }
+//@before 1 self.output.push(
+                    proof {
+                        // C15 at the call site: the memo index that gets written went through the dispatcher - it is the dispatcher's
+                        // answer for the picked key, or (safe mode only) the picked key because that answer is no defined index
+                        let fm = Generator::first_memo(&self.mutators, 0, gk, gs, self.mutation_rate).0;
+                        assert(index == fm || (!self.unsafe_mutations && index == gk && !self.state.memo@.dom().contains(fm))
+                            || (vf_rate_zero(self.mutation_rate) && index == gk)); // @C15
+                    }
 //@before 1 self.process_stack_ops(
                     proof { gidx = index as int; }
 //@before 1 Ok(())
@@ -2104,6 +2134,17 @@ pub fn get_random_module(&self, source: &mut GenerationSource) -> (r: Result<VfT
 //@after 1 self.output.extend_from_slice(arg_bytes);
                     proof { gtext = arg_bytes@; assert(self.output@.subrange(old(self).output@.len() as int + 1, self.output@.len() as int) =~= gtext);
                             assert(self.output@.len() == old(self).output@.len() + 1 + gtext.len()); }
+//@after 1 let index = keys[
+                    let ghost gk: usize = index;
+                    let ghost gs: GenerationSource = *source;
+//@before 1 self.output.push(
+                    proof {
+                        // C15 at the call site, any mode: the memo index that gets written is the dispatcher's answer for the picked key,
+                        // or (safe mode only) the picked key because that answer is no defined index
+                        let fm = Generator::first_memo(&self.mutators, 0, gk, gs, self.mutation_rate).0;
+                        assert(index == fm || (!self.unsafe_mutations && index == gk && !self.state.memo@.dom().contains(fm))
+                            || (vf_rate_zero(self.mutation_rate) && index == gk)); // @C15
+                    }
 //@before 1 self.post_process_emission(
         proof { g_out = self.output@; }
 //@before 1 Ok(())
@@ -2134,6 +2175,16 @@ pub fn get_random_module(&self, source: &mut GenerationSource) -> (r: Result<VfT
                 }
 //@after 1 let index = valid_indices[
                     proof { assert(valid_indices@.contains(index)); }
+//@after 1 let index = valid_indices[
+                    let ghost gk: usize = index;
+                    let ghost gs: GenerationSource = *source;
+//@before 1 self.output.push(
+                    proof {
+                        let fm0 = Generator::first_memo(&self.mutators, 0, gk, gs, self.mutation_rate).0;
+                        let fm = if fm0 < 255 { fm0 } else { 255usize };
+                        assert(index == fm || (!self.unsafe_mutations && index == gk && !(fm < 256 && self.state.memo@.dom().contains(fm)))
+                            || (vf_rate_zero(self.mutation_rate) && index == gk && gk < 256)); // @C15
+                    }
 //@before 1 self.post_process_emission(
         proof { g_out = self.output@; }
 //@before 1 Ok(())
@@ -2154,6 +2205,17 @@ pub fn get_random_module(&self, source: &mut GenerationSource) -> (r: Result<VfT
 //@subst? keys.sort_unstable() => vf_sort_unstable(&mut keys)
 //@subst (index as u32).to_le_bytes() => vf_u32_to_le_bytes(index as u32)
 //@rewrite R14? process_stack_ops self.process_stack_ops($ARGS, Ghost(r), Ghost(RefArg { idx: (index as u32) as int })); proof { if contig_pre(old(self)) { lemma_contig_step(old(self), self, $1, RefArg { idx: (index as u32) as int }); } }
+//@after 1 let index = keys[
+                    let ghost gk: usize = index;
+                    let ghost gs: GenerationSource = *source;
+//@before 1 self.output.push(
+                    proof {
+                        // C15 at the call site, any mode: the memo index that gets written is the dispatcher's answer for the picked key,
+                        // or (safe mode only) the picked key because that answer is no defined index
+                        let fm = Generator::first_memo(&self.mutators, 0, gk, gs, self.mutation_rate).0;
+                        assert(index == fm || (!self.unsafe_mutations && index == gk && !self.state.memo@.dom().contains(fm))
+                            || (vf_rate_zero(self.mutation_rate) && index == gk)); // @C15
+                    }
 //@before 1 self.post_process_emission(
         proof { g_out = self.output@; }
 //@before 1 Ok(())
